@@ -42,6 +42,9 @@ TEXTS = ["a", "b1", "1", "a.b", "a/b", "a b", "[", "]", "(", ")", "'", '"',
          # a backslash right before a character that is itself escaped
          "a\\ b", "a\\.b", "a\\/b", "b\\$", "\\'", "\\\\", "x\\"]
 SIMPLE = ["a", "b1", "1"]
+# segments (pre-escaped, as append() takes them) appended and popped again
+APPENDS = ["zz", "[&A]", "[0]", "[1:2]", "*", "**", "[k=v]", "[max(a)]",
+           "h\\=i", "b\\\\c", "x\\.y", "'q r'"]
 SEGS1 = []
 PATHS = []
 
@@ -273,18 +276,31 @@ def roundtrip(st, segs):
                 continue
             # append then pop restores the path and leaves the original alone
             before = str(path)
-            grown = path + "zz"
-            if str(path) != before:
-                st.fail("append-mutates|%s" % sig, case, before, str(path))
-                continue
-            try:
-                grown.pop()
-            except YAMLPathException as ex:
-                st.fail("pop-raises|%s" % sig, case, "pop", str(ex)[:80])
-                continue
-            if not grown == path or to_ast(grown.escaped) != segs:
-                st.fail("append-pop|%s|%s" % (sig, sep), case, before,
-                        "%r %r" % (str(grown), to_ast(grown.escaped)))
+            for extra in APPENDS:
+                if segs[-1][0] == "trav" and extra == "**":
+                    continue
+                grown = path + extra
+                if str(path) != before:
+                    st.fail("append-mutates|%s" % sig, case, before,
+                            str(path))
+                    break
+                try:
+                    grown.pop()
+                except YAMLPathException as ex:
+                    st.fail("pop-raises|%s" % sig, dict(case, appended=extra),
+                            "pop", str(ex)[:80])
+                    break
+                try:
+                    restored = (grown == path
+                                and to_ast(grown.escaped) == segs)
+                    shown = "%r %r" % (str(grown), to_ast(grown.escaped))
+                except Exception as ex:   # pylint: disable=broad-except
+                    restored = False
+                    shown = "%s: %s" % (type(ex).__name__, str(ex)[:80])
+                if not restored:
+                    st.fail("append-pop|%s|%s" % (sig, sep),
+                            dict(case, appended=extra), before, shown)
+                    break
 
 
 def equality(st, lo, hi):
